@@ -240,6 +240,12 @@ def gen_cases(tier, seed):
                 "sub": int(rng.integers(1 << 31)),
             }
         )
+    # shapes that are linear in their parameters, without bounds / constraints / weights: the unique linear least-squares
+    # solution is the oracle - present in every run whatever the seed
+    lrng = np.random.default_rng([seed, 14, 2])
+    for shp in [s_ for s_ in FIT_SHAPES if s_ in LINEAR] * 2:
+        for bk in ("none", "finite-inactive"):
+            cases.append({"kind": "single", "shape": shp, "n": int(lrng.integers(5, 21)), "bounds": bk, "constraints": "none", "weights": "none", "noise": 0.01, "sub": int(lrng.integers(1 << 31))})
     perms2 = list(itertools.permutations(range(2)))
     perms3 = list(itertools.permutations(range(3)))
     n_chain = 3 if tier == "quick" else 40
